@@ -477,6 +477,12 @@ def override_src(prog):
             o.append("        pub fn query(deps: StdDeps, env: Env, _msg: OvMsg) -> Result<Binary, ContractError> {\n"
                      "            rec::handler(\"%s\", \"override\", \"%s\", \"query\", vec![], rec::ctx_raw(&env, deps.storage, &deps.querier, None));\n"
                      "            Ok(sylvia::cw_std::to_json_binary(&QResp { h: \"%s\".to_string(), code: 0 })?)\n        }\n" % (prog["id"], name, name))
+        elif k == "reply":
+            o.append("        pub fn reply(deps: DepsMut, env: Env, _msg: sylvia::cw_std::Reply) -> Result<Response, ContractError> {\n"
+                     "            rec::handler(\"%s\", \"override\", \"%s\", \"reply\", vec![], rec::ctx_raw(&env, deps.storage, &deps.querier, None));\n"
+                     "            rec::touch(deps.storage, \"%s\");\n"
+                     "            Ok(Response::new().add_attribute(\"h\", \"%s\").add_attribute(\"code\", \"0\").set_data(b\"%s\"))\n        }\n" % (
+                         prog["id"], name, name, name, name))
         elif k in ("exec", "instantiate"):
             o.append("        pub fn %s(deps: DepsMut, env: Env, info: MessageInfo, _msg: OvMsg) -> Result<Response, ContractError> {\n"
                      "            rec::handler(\"%s\", \"override\", \"%s\", \"%s\", vec![], rec::ctx_raw(&env, deps.storage, &deps.querier, Some(&info)));\n"
@@ -545,7 +551,7 @@ def program_src(prog):
     for p in ifaces:
         o.append("    #[sv::messages(%s as %s)]\n" % (imod(p), p["id"].capitalize()))
     for k in prog.get("overrides", []):
-        o.append("    #[sv::override_entry_point(%s=ov::%s(verif_rrt::OvMsg))]\n" % (k, k))
+        o.append("    #[sv::override_entry_point(%s=ov::%s(%s))]\n" % (k, k, "sylvia::cw_std::Reply" if k == "reply" else "verif_rrt::OvMsg"))
     o.append("    impl%s Ctr%s%s {\n        pub const fn new() -> Self {\n            %s\n        }\n" % (
         gen_hdr, gen_hdr, gen_where, "Ctr { tag: 0, _p: std::marker::PhantomData }" if generic else "Ctr { tag: 0 }"))
     for m in own["methods"]:
